@@ -392,3 +392,36 @@ def rewrite_dyn_calls(f, fn, ed, counters):
             ed.replace(t[po].a, t[po].b, ', (')
             ed.replace(t[pc].a, t[pc].b, '))' if t[pc - 1].s == ',' else ',))')
         counters['rule7_dyn_call'] = counters.get('rule7_dyn_call', 0) + 1
+
+_LB = set(['=', '(', '{', ',', ';', '=>', 'return', 'else', '}', '[', '+=', '&&', '||', '==', '!=', '<', '>', 'in'])
+_RB = set([')', '{', ',', ';', '}', ']', '=>', '&&', '||', '==', '!=', '<', '>'])
+def fold_string_concat(f, fn, ed, counters):
+    """rule 9: a `+` chain (String concatenation; `String + &str` crashes Verus) -> nested vx_add(l, r), left-associative, operands untouched."""
+    t = f.toks
+    done = set()
+    for i in range(fn.i_bo, fn.i_bc):
+        if t[i].s != '+' or i in done: continue
+        # chain start: walk left over operand tokens
+        a = i - 1
+        while a > fn.i_bo:
+            if t[a].s in (')', ']') : a = t[a].mate - 1; continue
+            if t[a].s in _LB: break
+            a -= 1
+        start = a + 1
+        # walk right collecting the `+` of the chain
+        plus = []; b = start
+        while b < fn.i_bc:
+            if t[b].s in ('(', '['): b = t[b].mate + 1; continue
+            if t[b].s in _RB: break
+            if t[b].s == '+': plus.append(b)
+            b += 1
+        end = b          # exclusive
+        for p in plus: done.add(p)
+        n = len(plus)
+        ed.insert(t[start].a, 'vx_add(' * n)
+        for k, p in enumerate(plus):
+            # right operand ends before the next plus / chain end
+            ed.replace(t[p].a, t[p].b, ',')
+            re_ = (plus[k + 1] if k + 1 < n else end) - 1
+            ed.insert(t[re_].b, ')')
+        counters['rule9_string_concat'] = counters.get('rule9_string_concat', 0) + 1
